@@ -50,7 +50,7 @@ func packScenario(logN, minLogN int, ch rk.Chain, bound int) engine.Scenario {
 		c.Note("%s", cfg)
 		c.Cover("op", "RingPacking."+op)
 		uni.Seed(c, name, cfg)
-		known := knownKS(p, kp, level)
+		known := knownKS(p, kp, level, true)
 		if known != "" {
 			c.Skip(skipKnown)
 			return
